@@ -237,8 +237,11 @@ def check_config(ctx, pm, cfg, workdir, texts, counter):
     for l, r in roots.items():
         if r == got_root:
             layout = l
-    # (2) accessors
-    for acc in ("info", "images", "rpms", "modules"):
+    # (2) accessors, read in a configuration-dependent order (the answer must not depend on it)
+    order = ["info", "images", "rpms", "modules"]
+    random.Random(json.dumps(cfg, sort_keys=True)).shuffle(order)
+    loaded_texts = {}
+    for acc in order:
         here = placed.get(layout, {}).get(acc, {}) if layout else {}
         if len(here) == 2:
             ctx.count("both-names")
@@ -274,6 +277,8 @@ def check_config(ctx, pm, cfg, workdir, texts, counter):
                 got = obj.dumps() if obj is not None else None
             except Exception as e:
                 got = "dumps raised %s" % type(e).__name__
+            if outcome == "loaded" and isinstance(got, str):
+                loaded_texts[acc] = got
             bad = outcome != "loaded" or got not in want
             ctx.monitor("accessor-equals-direct-load", fired=bad)
             if bad:
@@ -319,6 +324,19 @@ def check_config(ctx, pm, cfg, workdir, texts, counter):
                 if bad:
                     ctx.violation("error-is-runtimeerror-naming-location", "an undecodable or invalid file surfaces as RuntimeError naming the location",
                                   sub, observed="%s: %s" % (outcome, str(exc)[:200]), expected="RuntimeError mentioning the file or the compose root")
+    # (3) history independence: a fresh object that reads ONLY this accessor gives the same metadata
+    for acc, t in sorted(loaded_texts.items()):
+        try:
+            fresh = pm["Compose"](path)
+            t2 = getattr(fresh, acc).dumps()
+        except Exception as e:
+            t2 = "raised %s: %s" % (type(e).__name__, str(e)[:100])
+        bad = t2 != t
+        ctx.monitor("independent-of-access-order", fired=bad)
+        if bad:
+            ctx.violation("independent-of-access-order", "what an accessor returns does not depend on which other accessors were read before",
+                          dict(case, accessor=acc, access_order=order), observed={"after %s" % order: _origin(t), "fresh object": _origin(t2)},
+                          expected="the same metadata")
     ctx.count("kind-valid") if cfg["kind"] == "valid" else None
     shutil.rmtree(base, ignore_errors=True)
 
